@@ -21,7 +21,7 @@ from .values import (K, T, Obj, ListV, TupleV, SetV, DictV, FuncRef, ClassRef,
                      ClassMethodV, RegexV, NTupleV, NTClass, same, show)
 
 MAX_PATHS = 4096
-MAX_STEPS = 200000
+MAX_STEPS = 4000000
 
 
 class AbsRaise(Exception):
@@ -1333,6 +1333,8 @@ class Interp:
         if isinstance(it, GenV):
             broke = []
 
+            leaving = []
+
             def consume(v):
                 self.assign(s.target, v, fr)
                 try:
@@ -1342,7 +1344,16 @@ class Interp:
                     raise _GenStop()
                 except _Continue:
                     pass
+                except (_Return, AbsRaise) as jump:
+                    # the loop body leaves the loop (return / exception):
+                    # the generator is abandoned, not resumed, and what the
+                    # body raised is not seen by the generator's own
+                    # handlers
+                    leaving.append(jump)
+                    raise _GenStop()
             self.run_generator(it, consume)
+            if leaving:
+                raise leaving[0]
             if not broke:
                 self.exec_block(s.orelse, fr)
             return
